@@ -250,14 +250,14 @@ def sendInput (e : Endpoint) (now : Nat) (inputs : List (Nat × PlayerInput))
            then { e with eventQueue := e.eventQueue ++ [.disconnected] } else e
   e.sendPendingOutput now connectStatus
 
-/-- `InputBytes::to_player_inputs` for `u8` inputs: bincode reads the first byte of each slice
-and ignores trailing bytes; an empty slice is an error. -/
+/-- `InputBytes::to_player_inputs` for `u8` inputs: every player's slice must be exactly one
+serialized input (trailing bytes are rejected, an empty slice is an error). -/
 def toPlayerInputs (frame : Frame) (bytes : Bytes) (numPlayers : Nat) : Option (List PlayerInput) :=
   if numPlayers == 0 then none
   else if bytes.length % numPlayers != 0 then none
   else
     let size := bytes.length / numPlayers
-    if size < INPUT_SIZE then none
+    if size != INPUT_SIZE then none
     else some ((List.range numPlayers).map fun p => ⟨frame, (bytes.drop (p * size)).headD 0⟩)
 
 def mergeStatus (mine theirs : List ConnStatus) : List ConnStatus :=
